@@ -156,7 +156,7 @@ def correspondence(ctx):
             ctx.violations.append({"kind": "fixed-defect-regressed", "finding": "D34", "case": w, "impl": got})
     items = [(D34_A, "public"), (D34_B, "public"), (D34_A, "state"), (D34_B, "state")]
     items += [(c, lvl) for c in sa.corpus("c02.jsonl") for lvl in ("state", "public")]
-    for _ in range(ctx.pick(70, 900)):
+    for _ in range(ctx.pick(70, 600)):
         items.append((comb_case(rng, rng.choice([1, 2, 2, 3, 3, 3, 4, 4, 4, 4, 4, 5])), "public"))
     for _ in range(ctx.pick(300, 5000)):
         items.append((comb_case(rng, rng.choice([2, 3, 3, 4, 4, 4, 5, 6]), max_jobs=40), "state"))
